@@ -2154,7 +2154,12 @@ fn find_nsec_covering_record<'a>(
         let next_domain_name = nsec_data.next_domain_name();
 
         test_name > nsec_name
-            && (test_name < next_domain_name || Some(next_domain_name) == soa_name)
+            && (test_name < next_domain_name
+                || Some(next_domain_name) == soa_name
+                // The last record of the chain points back to the apex, which sorts before every
+                // other name of the zone: it covers every name of the zone after its owner. This
+                // recognizes it when the response carries no SOA (wildcard expansion responses).
+                || (next_domain_name <= *nsec_name && next_domain_name.zone_of(test_name)))
             // RFC 6840 section 4.1: an ancestor delegation NSEC says nothing about the names
             // below its owner, they belong to the child zone.
             && !(is_ancestor_delegation(nsec_data) && nsec_name.zone_of(test_name))
